@@ -406,6 +406,39 @@ def ctor_fields(ctx, c: str) -> Tuple[set, Optional[ast.AST]]:
     return out, node
 
 
+def ctor_alterations(ctx, c: str) -> List[Tuple[str, str, str, int]]:
+    """(field, expression, defining class, line) for every field an item constructor chain does not pass on as the
+    same-named parameter it received, plus statements of an __init__ other than the super().__init__ call."""
+    M = ctx.M
+    out = []
+    cur = M.method(c, "__init__")
+    hops = 0
+    while cur is not None and hops < 12:
+        hops += 1
+        fn = M.funcs[cur]
+        if fn.cls == SERIES:
+            break
+        params = {a.arg for a in fn.node.args.args + fn.node.args.kwonlyargs}
+        sup = [n for n in walk_no_nested(fn.node) if isinstance(n, ast.Call) and isinstance(n.func, ast.Attribute)
+               and n.func.attr == "__init__" and isinstance(n.func.value, ast.Call) and
+               isinstance(n.func.value.func, ast.Name) and n.func.value.func.id == "super"]
+        if len(sup) != 1:
+            break
+        for k in sup[0].keywords:
+            if k.arg is None:
+                continue
+            if not (isinstance(k.value, ast.Name) and k.value.id == k.arg and k.arg in params):
+                out.append((k.arg, unparse(k.value), fn.cls, k.value.lineno))
+        for st in fn.node.body:
+            if isinstance(st, ast.Expr) and isinstance(st.value, ast.Constant):
+                continue
+            if isinstance(st, ast.Expr) and st.value is sup[0]:
+                continue
+            out.append(("<body>", unparse(st)[:80], fn.cls, st.lineno))
+        cur = M.method_after(c, fn.cls, "__init__")
+    return out
+
+
 def rule_r7(ctx) -> List[R.Inst]:
     M = ctx.M
     insts = []
@@ -417,8 +450,17 @@ def rule_r7(ctx) -> List[R.Inst]:
         init = M.method(c, "__init__")
         file, line = fn_loc(M, init)
         key = f"{c.split('.')[-1]}.__init__"
-        if got == declared:
-            insts.append(R.ok("C16.R7", key, file, line, idiom=f"{len(declared)} kwargs = declared fields"))
+        alt = ctor_alterations(ctx, c)
+        if got == declared and alt:
+            f_, e_, k_, ln_ = alt[0]
+            afile = M.mods[M.classes[k_].mod].rel
+            what = (f"field '{f_}' is handed on as '{e_}'" if f_ != "<body>" else f"the constructor also runs '{e_}'")
+            insts.append(R.viol("C16.R7", key, afile, ln_,
+                                f"{k_.split('.')[-1]}.__init__: {what}, not the value it was given: an item built from a row (indexing, "
+                                f"iteration) or a list built from items no longer carries the given values",
+                                construct=f"{c.split('.')[-1]} via {k_.split('.')[-1]}: {f_}={e_}"))
+        elif got == declared:
+            insts.append(R.ok("C16.R7", key, file, line, idiom=f"{len(declared)} kwargs = declared fields, each passed on unchanged"))
         else:
             extra, missing = sorted(got - declared), sorted(declared - got)
             insts.append(R.viol("C16.R7", key, file, node.lineno if node is not None else line,
@@ -560,6 +602,42 @@ def rule_r10(ctx) -> List[R.Inst]:
     return insts
 
 
+def _setter_shape_problem(f: ast.FunctionDef, stores, vparam, tgt_text, aliases):
+    """A generated setter stores the value it is given, on every path: no early exit, every branch stores, and the stored
+    value is the parameter itself (accepted conversions: `.df` of it, or a cast to the dtype the *target* currently has)."""
+    for n in ast.walk(f):
+        if isinstance(n, ast.Return):
+            return (f"the generated setter returns early on some values (line {n.lineno}): those assignments are silently dropped",
+                    "early return")
+        if isinstance(n, ast.If):
+            for br, nm in ((n.body, "if"), (n.orelse, "else")):
+                has = any(isinstance(x, ast.Assign) and x in stores for s_ in br for x in ast.walk(s_))
+                if not has and (br or nm == "else"):
+                    # an `if` that only prepares a local and falls through to one common store is fine when the store follows
+                    after = [x for x in stores if x.lineno > n.end_lineno]
+                    if not after:
+                        return (f"the {nm}-branch at line {n.lineno} does not store the value", f"{nm}-branch without store")
+    local = {}
+    for n in ast.walk(f):
+        if isinstance(n, ast.Assign) and isinstance(n.targets[0], ast.Name):
+            local.setdefault(n.targets[0].id, []).append(n.value)
+    for x in stores:
+        v = x.value
+        if isinstance(v, ast.Name) and v.id != vparam and len(local.get(v.id, [])) == 1:
+            v = local[v.id][0]
+        t = tgt_text(x)
+        ok = isinstance(v, ast.Name) and v.id == vparam
+        ok = ok or (isinstance(v, ast.Attribute) and isinstance(v.value, ast.Name) and v.value.id == vparam and v.attr == "df")
+        if not ok and isinstance(v, ast.Call) and isinstance(v.func, ast.Attribute) and v.func.attr == "astype" and \
+                isinstance(v.func.value, ast.Name) and v.func.value.id == vparam and len(v.args) == 1:
+            a = unparse(v.args[0])
+            ok = a.endswith(".dtype") and a[:-6].replace(" ", "") == unparse(x.targets[0]).replace(" ", "")
+        if not ok:
+            return (f"the generated setter stores '{unparse(v)[:80]}' into {t}, not the value it is given: the assigned values are "
+                    f"converted on the way in", f"stores {unparse(v)[:80]}")
+    return None
+
+
 def rule_r11(ctx) -> List[R.Inst]:
     """the four accessor generators of Property.py: each generated property reads / writes its own key of the right store"""
     M = ctx.M
@@ -610,9 +688,31 @@ def rule_r11(ctx) -> List[R.Inst]:
                                         construct=f"{deco}.getter: {got}"))
             else:
                 stores = [x for x in ast.walk(f) if isinstance(x, ast.Assign)]
-                tg = {unparse(x.targets[0]).replace(kb, "k_") for x in stores}
                 base_w = swant[:-3] if swant.endswith(".df") else swant
-                if tg and all(t.startswith(base_w) for t in tg):
+                # local aliases of the store (obj = self.objs[k_]) are resolved
+                alias = {unparse(x.targets[0]): unparse(x.value) for x in stores
+                         if isinstance(x.targets[0], ast.Name) and unparse(x.value).replace(kb, "k_").startswith(base_w)}
+                real = [x for x in stores if not (isinstance(x.targets[0], ast.Name))]
+
+                def tgt_text(x):
+                    t = unparse(x.targets[0])
+                    for a, v in alias.items():
+                        if t == a or t.startswith(a + ".") or t.startswith(a + "["):
+                            t = v + t[len(a):]
+                    return t.replace(kb, "k_")
+                tg = {tgt_text(x) for x in real}
+                vparam = args[1].arg if len(args) > 1 else None
+                prob = _setter_shape_problem(f, real, vparam, tgt_text, set(alias))
+                other_loop = sorted({x.id for b in f.body for x in ast.walk(b) if isinstance(x, ast.Name) and
+                                     isinstance(x.ctx, ast.Load)} & ({y.id for y in ast.walk(lp.target) if isinstance(y, ast.Name)} - {kvar}))
+                if other_loop:
+                    insts.append(R.viol("C16.R11", key, file, f.lineno,
+                                        f"the generated setter reads the loop variable(s) {other_loop} of the generating loop: closures "
+                                        f"bind late, so every generated setter sees the values of the LAST declared field",
+                                        construct=f"{deco}.setter late-binds {other_loop}"))
+                elif tg and all(t.startswith(base_w) for t in tg) and prob:
+                    insts.append(R.viol("C16.R11", key, file, f.lineno, prob[0], construct=f"{deco}.setter: {prob[1]}"))
+                elif tg and all(t.startswith(base_w) for t in tg):
                     insts.append(R.ok("C16.R11", key, file, f.lineno, idiom=f"{sorted(tg)[0]} = value"))
                 else:
                     insts.append(R.viol("C16.R11", key, file, f.lineno,
@@ -627,6 +727,14 @@ def rule_r11(ctx) -> List[R.Inst]:
     return insts
 
 
+def rule_r12(ctx) -> List[R.Inst]:
+    """re-definitions below the classes the list rules decide (sa/props/overrides.py): the `df` field is a plain field on
+    every list class, and a method of a reamber.base list class re-defined in a subclass either forwards to it or is itself
+    the anchor of a rule"""
+    from .overrides import list_override_insts
+    return list_override_insts(ctx, "C16.R12")
+
+
 SPECS = [
     RuleSpec("C16.R1", rule_r1, 2, "A7", "int index is positional; other indices re-wrap df[...] in the receiver's class"),
     RuleSpec("C16.R2", rule_r2, 2, "A7", "__len__ = rows; __iter__ yields one item per row in row order"),
@@ -638,6 +746,7 @@ SPECS = [
     RuleSpec("C16.R8", rule_r8, 37, "A2", "default / empty / from_dict frames = declared fields"),
     RuleSpec("C16.R9", rule_r9, 2, "M0", "row -> item filter keeps exactly the declared fields"),
     RuleSpec("C16.R10", rule_r10, 3, "A7", "hold ends: head_offset = offset, tail_offset = offset + length"),
+    RuleSpec("C16.R12", rule_r12, 9, "M0", "list operations re-defined in subclasses forward to the decided definition; `df` is a plain field"),
     RuleSpec("C16.R11", rule_r11, 12, "M0", "Property.py generators: each accessor reads/writes its own key (bound per iteration) of the right store"),
 ]
 
